@@ -13,7 +13,10 @@ INFO = {
                "diagnostic; the `error:` template exists nowhere else; after a recoverable error exactly the offending "
                "byte has been consumed (every byte that cannot start a value is consumed once, a malformed reserved "
                "word stops at the mismatching byte); the insignificant-whitespace set is exactly RFC 8259's, so "
-               "whitespace-delimited noise is delimited the same way values are.",
+               "whitespace-delimited noise is delimited the same way values are; a turn of the read loop that ends in a "
+               "recoverable error moves neither the per-file nor the run-wide counter (so &index of the values does "
+               "not depend on the noise), and next_json_value has consumed at least one byte before any return while "
+               "input remains (the retry loop advances).",
     "not_decided": "That the values around the noise come out as the same values (C01's run-time remainder) and the "
                    "number of error lines per region.",
     "trusted": ["sa/tables/rfc8259.toml"],
@@ -86,3 +89,8 @@ def run(ctx, rep):
     PR.resync(rep, lib)
     PR.dispatch(rep, lib)
     PR.ws(rep, lib)
+    # noise must not move the ordinals the values are given, and must be stepped over one byte at a time
+    from rules import c17
+    from rules import progress_rules as PG
+    c17.counters(rep, lib)
+    PG.recover_consumes(rep, ctx)
